@@ -134,6 +134,25 @@ def step (st : State) (w : List String) : State × String :=
         else s!"rcode={rejectRcode v}/qr=1/op={(fl >>> 11) &&& 0xF}"
       (st, s!"verdict={v} udp={reply} tcp={reply}")
     | _ => (st, "bad-op")
+  | "mz" :: "run" :: kv =>
+    match (kvGet kv "pkt").bind natBytes with
+    | some b =>
+      match parseWire b with
+      | some f =>
+        let showC : ContOut → String
+          | .notimp => "reply/rcode=4"
+          | .badvers => "reply/rcode=16"
+          | .seen c =>
+            let name := if c.labels.isEmpty then "." else String.join (c.labels.map fun l => String.ofList (l.map Char.ofNat) ++ ".")
+            s!"ecs={boolStr c.ecsMarker}/id={c.id}/fl={c.flags}/q={name}/{c.qtype}/{c.qclass}/an=0/ns=0/ar=1/" ++
+            s!"udp={c.optUDPSize},do={boolStr c.optDO},ver={c.optVersion},xr=0,opts={c.optOptions}"
+        -- the decoded form of an admitted packet: its facts ARE the specification message's (parseWire_refines_spec)
+        let asMsg : SMsg := { id := f.id, flags := f.flags, labels := f.labels, qtype := f.qtype, qclass := f.qclass,
+                              opt := f.opt.map fun o => { udpSize := o.udpSize, version := o.version, zflags := if o.dnssecOK then 2 ^ 15 else 0,
+                                                          options := if o.hasECS then [{ code := 8, data := [] }] else [] } }
+        (st, s!"w={showC (contWire f)} m={showC (contMsg asMsg)}")
+      | none => (st, "w=none m=skip")
+    | none => (st, "bad-op")
   | "hs" :: "run" :: kv =>
     match kvGet kv "name", (kvGet kv "qt").bind String.toNat? with
     | some name, some qt =>
